@@ -248,6 +248,21 @@ class ObsInterp(ObjInterp):
             return None
         return self.list_owner(obj, st, fr)
 
+    def find_result(self, e, st, fr):
+        """('find', X, o) if e is std::find(L.begin(), L.end(), &o) on the whole observer list L of X"""
+        tu = self.tu
+        e = unwrap_iter(tu, e)
+        if e is None or e.get('kind') != 'CallExpr' or tu.sd(e).get('q') != 'std::find':
+            return None
+        s_, o_, a = tu.call_parts(e)
+        if len(a) != 3:
+            return None
+        xb, xe = self.list_end(a[0], st, fr, ('begin', 'cbegin')), self.list_end(a[1], st, fr, ('end', 'cend'))
+        p_ = self.pval(a[2], st, fr)
+        if xb in OBJS and xb == xe and isinstance(p_, tuple) and p_[0] == 'addr' and p_[1] and p_[1] not in OBJS:
+            return ('find', xb, p_[1])
+        return None
+
     def list_use_ok(self, n, fr):
         """a mention of an observer list inside an interpreted member is understood when it initialises a local reference or
         is the object of begin()/end() feeding a modelled algorithm (std::replace)"""
@@ -280,7 +295,9 @@ class ObsInterp(ObjInterp):
                                 return tu.sd(r_).get('q', '').split('::')[-1] == 'erase'
                             r_ = tu.par(r_)
                         return False
-                    return tu.sd(q).get('q') == 'std::replace'
+                    return tu.sd(q).get('q') in ('std::replace', 'std::find')
+                if q.get('kind') == 'CXXOperatorCallExpr' and tu.sd(q).get('q', '').split('::')[-1] in ('operator!=', 'operator=='):
+                    return True       # comparison of a find() result with end(): decided by eval_bool
                 if q.get('kind') == 'CXXMemberCallExpr' and tu.sd(q).get('q', '').split('::')[-1] == 'erase':
                     return True
                 if q.get('kind') not in ('CXXMemberCallExpr', 'MaterializeTemporaryExpr', 'ImplicitCastExpr', 'CXXConstructExpr',
@@ -448,6 +465,19 @@ class ObsInterp(ObjInterp):
             return None
         if k == 'DeclRefExpr' and (tu.sd(e).get('ct') or '').replace('const ', '') == 'bool':
             return d.get('b:' + str(e.get('referencedDecl', {}).get('id')))
+        if k == 'CXXOperatorCallExpr' and tu.sd(e).get('q', '').split('::')[-1] in ('operator!=', 'operator=='):
+            a_ = tu.kids(e)[1:]
+            if len(a_) == 2:
+                for i_, j_ in ((0, 1), (1, 0)):
+                    it_ = unwrap_iter(tu, a_[i_])
+                    fd_ = None
+                    if it_ is not None and it_.get('kind') == 'DeclRefExpr':
+                        fd_ = d.get('it:' + str(it_.get('referencedDecl', {}).get('id')))
+                    elif it_ is not None:
+                        fd_ = self.find_result(it_, st, fr)
+                    if fd_ and self.list_end(a_[j_], st, fr, ('end', 'cend')) == fd_[1]:
+                        found = fd_[1] in d.get('r:' + fd_[2], ())
+                        return found if tu.sd(e)['q'].endswith('!=') else (not found)
         if k in CALLS:
             vals = self.call_value(e, st, fr)
             if vals and all(isinstance(v, bool) for v in vals) and len(set(vals)) == 1:
@@ -700,6 +730,8 @@ class ObsInterp(ObjInterp):
                     d['b:' + str(v['id'])] = self.eval_bool(init, st, fr)
                 elif ptr_to(ict, OBSV) or ptr_to(tu.sd(tu.strip(init, casts=True)).get('ct'), OBSV):
                     d['v:' + str(v['id'])] = self.pval(init, st, fr)
+                elif self.find_result(init, st, fr) is not None:
+                    d['it:' + str(v['id'])] = self.find_result(init, st, fr)          # iterator returned by std::find on an observer list
                 elif '&' in vt and self.list_owner(init, st, fr) is not None:
                     d['l:' + str(v['id'])] = self.list_owner(init, st, fr)       # reference to the observer list of that observable
                 elif '&' not in vt and self.int_type(vt) and self.dist_of(init, st, fr, vt):
@@ -776,8 +808,24 @@ class ObsInterp(ObjInterp):
                         if len(ra) == 3 and self.list_end(ra[0], st, fr, ('begin', 'cbegin')) == x and self.list_end(ra[1], st, fr, ('end', 'cend')) == x \
                                 and self.list_end(args[1], st, fr, ('end', 'cend')) == x and isinstance(p_, tuple) and p_[0] == 'addr' and p_[1] not in OBJS:
                             return [self.reg_event(st, 'unreg', x, p_[1])]
+                if nm == 'erase' and len(args) == 1:
+                    it_ = unwrap_iter(tu, args[0])
+                    fd_ = d.get('it:' + str(it_.get('referencedDecl', {}).get('id'))) if it_ is not None and it_.get('kind') == 'DeclRefExpr' else None
+                    if fd_ and fd_[1] == x:
+                        # erase(find(begin, end, &o)): removes the first entry for o (observers are listed once: R-C19-1 invariant)
+                        if x not in d.get('r:' + fd_[2], ()):
+                            self.report('erase-end', 'erase() is applied to the result of std::find on a path where the observer is not in the list: '
+                                        'that is erase(end()), undefined behaviour', n, fr, st)
+                            return [st]
+                        d2 = self.ev(st, 'unreg1(%s,%s)' % (x, fd_[2]))
+                        cur = list(d2.get('r:' + fd_[2], ()))
+                        cur.remove(x)
+                        d2['r:' + fd_[2]] = tuple(sorted(cur))
+                        return [freeze(d2)]
                 self.und('operation %s on an observer list in a form the analysis does not model at %s' % (nm, tu.loc(n)))
                 return [st]
+            if q == 'std::find':
+                return [st]           # decided where its result is stored / compared
             if q == 'std::swap' and len(args) == 2:
                 fa, fb = tu.strip(args[0], casts=True), tu.strip(args[1], casts=True)
                 if self.is_field(fa, self.F.observee) and self.is_field(fb, self.F.observee):
@@ -2919,6 +2967,26 @@ def value_ops(t, f, VALUE, depth=0):
                 elif sd.get('rec') == TS and obj is not None and is_this_obj(obj) and callee is None and \
                         not (name.startswith('operator ') and not name.startswith('operator=')):
                     und.append('call of %s on *this without a visible body at %s' % (sd.get('q'), t.loc(x)))
+        # a path taken because `this == &other` (self-assignment guard): the unchanged value IS the source's value
+        aliased = False
+        for blk, taken in path:
+            if taken is not None and blk.cond is not None and len(blk.succ) == 2:
+                c = t.strip(t.node(blk.cond), casts=True)
+                truth = (taken == 0)
+                while c is not None and c.get('kind') == 'UnaryOperator' and c.get('opcode') == '!':
+                    truth = not truth
+                    c = t.strip(t.kids(c)[0], casts=True)
+                if c is not None and c.get('kind') == 'BinaryOperator' and c.get('opcode') in ('==', '!='):
+                    l, r = (t.strip(k_, casts=True) for k_ in t.kids(c))
+                    for a_, b_ in ((l, r), (r, l)):
+                        if a_ is not None and a_.get('kind') == 'CXXThisExpr' and b_ is not None and (
+                                (b_.get('kind') == 'UnaryOperator' and b_.get('opcode') == '&' and t.ref_decl(t.kids(b_)[0]) in params) or
+                                (b_.get('kind') == 'CallExpr' and t.sd(b_).get('q') == 'std::addressof' and t.kids(b_)[1:] and
+                                 t.ref_decl(t.kids(b_)[1]) in params)):
+                            if truth == (c['opcode'] == '=='):
+                                aliased = True
+        if aliased:
+            curs = ['src' if c_ == 'old' else c_ for c_ in curs]
         finals += curs
     return finals, sorted(set(notes)), sorted(set(und))
 
